@@ -5,7 +5,8 @@ from props.C06 import gen_graph, exhaustive_small, arcs_of, bellman_ford, coq_ed
 
 PROP = 'C07'
 THEOREM_FILE = 'Props/C07.v'
-NOTES = ['the returned path is compared through the abstraction of the theorem (valid walk of the recorded edges, cost = shortest distance, geometry = chained travel-oriented polylines), '
+NOTES = ['in 30% of the cases routes returned by earlier queries are translated and scaled in place before the observed query (a returned route is the caller\'s object)',
+         'the returned path is compared through the abstraction of the theorem (valid walk of the recorded edges, cost = shortest distance, geometry = chained travel-oriented polylines), '
          'so another optimal path is not a disagreement',
          'every edge polyline has three vertices: its source node position, a middle vertex unique to the edge (1000 + id, id), its target node position - the hypothesis '
          '"an edge\'s polyline starts at its source node and ends at its target node" of the geometry theorem holds for every generated network',
@@ -40,7 +41,7 @@ def generate(rng, n, tier):
             for s in nodes:
                 for t in nodes:
                     if s != t:
-                        cases.append({'edges': g, 'src': s, 'tgt': t, 'shared': rng.random() < 0.3, 'warm': rng.choice(nodes)})
+                        cases.append({'edges': g, 'src': s, 'tgt': t, 'shared': rng.random() < 0.3, 'edit': rng.random() < 0.2, 'warm': rng.choice(nodes)})
     for k in range(n):
         g = gen_graph(rng, small=(k % 3 == 0))
         nodes = sorted({e[1] for e in g} | {e[2] for e in g})
@@ -48,12 +49,18 @@ def generate(rng, n, tier):
             continue
         s = rng.choice(nodes)
         t = rng.choice([v for v in nodes if v != s])
-        cases.append({'edges': g, 'src': s, 'tgt': t, 'shared': rng.random() < 0.3, 'warm': rng.choice(nodes)})
+        cases.append({'edges': g, 'src': s, 'tgt': t, 'shared': rng.random() < 0.3, 'edit': rng.random() < 0.3, 'warm': rng.choice(nodes)})
     return cases
 
 
 def run_impl(case):
     net = build_net(case['edges'])
+    if case.get('edit'):            # a route returned earlier is the caller's: editing it in place must not move the network under later queries
+        for a, b in ((case['warm'], case['tgt']), (case['src'], case['tgt']), (case['tgt'], case['src'])):
+            r0 = net.shortest_path(a, b)
+            if r0 is not None and len(r0) > 0:
+                r0.translate(100.0, 100.0)
+                r0.scale(2.0)
     if case.get('shared'):          # the optional output dictionary, reused across successive calls from the same source as the API allows
         reg = {}
         net.shortest_path(case['src'], case['warm'], output_dict=reg)
